@@ -178,11 +178,13 @@ def parJacOld (fill : (o x : V) → β o x) (ds : List (Disc β)) (o x : V) : β
 
 /-- REPAIRED TREE, an output to sum: the sum of the blocks of the disciplines having one; `none`
     (then zero-filled) when no discipline has a block for the pair. -/
+def addStep [BlockOps β] (o x : V) (acc : Option (β o x)) (d : Disc β) : Option (β o x) :=
+  match (d.jac.row o).get x with
+  | some b => (match acc with | some a => some (BlockOps.add a b) | none => some b)
+  | none => acc
+
 def addBlock [BlockOps β] (ds : List (Disc β)) (o x : V) : Option (β o x) :=
-  ds.foldl (fun acc d =>
-    match (d.jac.row o).get x with
-    | some b => (match acc with | some a => some (BlockOps.add a b) | none => some b)
-    | none => acc) none
+  ds.foldl (addStep o x) none
 
 def addJac [BlockOps β] (fill : (o x : V) → β o x) (sums : List V) (ds : List (Disc β))
     (o x : V) : β o x :=
